@@ -369,6 +369,7 @@ def analyse(f, field_ids, field_types, fresh, struct_ptr_names):
     destroyed = set()    # (base, field) whose value is handed to a *_destroy call in this function
     alias = {}           # local variable id -> (base, field) it was assigned from
     cur = {}             # (base, field) -> (value, vkind) of its latest unconditional plain literal store
+    saved = {}           # local variable id -> (base, field) whose ENTRY value it holds (save / restore brackets)
     whole = []
     obj_calls = []       # (callee, root of the first argument) when that argument has the struct pointer type
 
@@ -378,12 +379,41 @@ def analyse(f, field_ids, field_types, fresh, struct_ptr_names):
             return e
         return None
 
-    def rhs_value(e, fld):
+    def note_saved(vid, key, cond):
+        """`local = obj->field` on every path, before this function stores to the field: the local holds
+        the value the field had on entry."""
+        if not cond and not any((s_['base'], s_['field']) == key for s_ in stores) and vid not in saved:
+            saved[vid] = key
+        else:
+            saved[vid] = None
+
+    def holds_entry_value(vid, key):
+        if saved.get(vid) != key:
+            return False
+        defs = f.local_defs.get(vid) or []
+        nmember = 0
+        for d in defs:
+            if d.get('kind') in ('<address-taken>', '<out-arg>'):
+                return False
+            if is_null_const(d):
+                continue
+            m3 = member_of(d)
+            if m3 is not None and (base_of(f, m3, fresh), field_ids[m3['referencedMemberDecl']]) == key:
+                nmember += 1
+                continue
+            return False
+        return nmember == 1
+
+    def rhs_value(e, fld, base=None):
         """value of a right-hand side; `a = b = v` takes v, `x->f = x->g` takes g's literal value when
-        g was stored unconditionally earlier in this function."""
+        g was stored unconditionally earlier in this function; `x->f = local` where the local only ever
+        holds the value x->f had on entry is rendered `saved:f` (save / restore bracket)."""
         e0 = strip(e)
         if e0.get('kind') == 'BinaryOperator' and e0.get('opcode') == '=':
-            return rhs_value(e0['inner'][1], fld)
+            return rhs_value(e0['inner'][1], fld, base)
+        if base is not None and e0.get('kind') == 'DeclRefExpr' and e0['referencedDecl'].get('kind') == 'VarDecl' \
+                and holds_entry_value(e0['referencedDecl'].get('id'), (base, fld)):
+            return 'saved:' + fld, 'other'
         m2 = member_of(e)
         if m2 is not None:
             key = (base_of(f, m2, fresh), field_ids[m2['referencedMemberDecl']])
@@ -398,12 +428,14 @@ def analyse(f, field_ids, field_types, fresh, struct_ptr_names):
             m = member_of(ini[-1]) if ini else None
             if m is not None:
                 alias[n['id']] = (base_of(f, m, fresh), field_ids[m['referencedMemberDecl']])
+                note_saved(n['id'], alias[n['id']], cond)
         if k == 'BinaryOperator' and n.get('opcode') == '=':
             l0 = strip(n['inner'][0])
             if l0.get('kind') == 'DeclRefExpr' and l0['referencedDecl'].get('kind') == 'VarDecl':
                 m = member_of(n['inner'][1])
                 if m is not None:
                     alias[l0['referencedDecl']['id']] = (base_of(f, m, fresh), field_ids[m['referencedMemberDecl']])
+                    note_saved(l0['referencedDecl']['id'], alias[l0['referencedDecl']['id']], cond)
         if k == 'BinaryOperator' and (n.get('opcode') == '=' or n.get('opcode', '').endswith('=') and
                                       n.get('opcode') not in ('==', '!=', '<=', '>=')):
             m = member_of(n['inner'][0])
@@ -412,7 +444,7 @@ def analyse(f, field_ids, field_types, fresh, struct_ptr_names):
                 base = base_of(f, m, fresh)
                 visit(n['inner'][1], cond)
                 if n['opcode'] == '=':
-                    val, vk = rhs_value(n['inner'][1], fld)
+                    val, vk = rhs_value(n['inner'][1], fld, base)
                 else:
                     val, vk = n['opcode'] + value_kind(f, n['inner'][1], field_types[fld])[0], 'other'
                 stores.append(dict(field=fld, base=base, op=n['opcode'], value=val, vkind=vk, cond=cond,
@@ -591,6 +623,8 @@ def gen_fields(facts):
          '    "other:<name>". `op`: "=", "++", "--", "+=", …, "&out" (address taken).',
          '    `vkind`: "param" | "literal" | "lookup" (wbxml_tables_get_* of parameters/literals) | "other".',
          '    `cond`: not executed on every path that returns an object.',
+         '    `value` "saved:<f>": a local that only ever holds the value field <f> of the same object had on entry',
+         '    (assigned from it on every path before the function stores to <f>): the store puts the entry value back.',
          '    `destroyedFirst`: the value of the field is handed to a `*_destroy`/`*_free` call in the same function',
          '    (directly, or through a local that was assigned the field).',
          '    `Fn.wholeObject`: memset/memcpy/struct assignment over the whole object (writes every field).',
